@@ -17,13 +17,25 @@
 (*    error otherwise; AGENTS.md, Database Write Atomicity), one reader, one crash, one injected  *)
 (*    fault, one retry.  `Mutant` switches in what the implementation must not do; every mutant   *)
 (*    must break an invariant (the check runs them: the properties are not vacuous).              *)
+(*                                                                                               *)
+(* Besides the relative properties (a call ends in the pre-state or in the post-state of the     *)
+(* uninterrupted run) there is an absolute one: every content that is ever durable -- and hence  *)
+(* every content any observer of a committed state can see -- is Sound: it satisfies the         *)
+(* cross-table invariants of a wallet database.  An error the operation's own logic raises half  *)
+(* way (no fault involved) and that is swallowed further up makes the *uninterrupted* run commit *)
+(* a half-applied state; the relative properties cannot see that (the reference run is what it   *)
+(* is), Consistent does.                                                                         *)
 EXTENDS Naturals, FiniteSets, Sequences
 
 CONSTANTS MaxStmts,   \* statements of the writer's operation (program layer)
           MaxReads,   \* reads of the reader's transaction (program layer)
           Wal,        \* TRUE: write-ahead log (a commit succeeds while a reader holds a snapshot)
                       \* FALSE: rollback journal (the commit is refused, SQLITE_BUSY)
-          Mutant      \* "none" | "StmtOutsideTxn" | "CommitOnErr" | "SwallowError" | "TwoTxns" | "ReaderNoTxn"
+          Mutant,     \* "none" | "StmtOutsideTxn" | "CommitOnErr" | "SwallowError" | "TwoTxns" | "ReaderNoTxn" | "SwallowRefusal"
+          Sound(_)    \* Sound(c): the content c satisfies the cross-table invariants of a wallet database.
+                      \* Trace validation: the conjunction of the facts the driver computed by SQL in the same
+                      \* snapshot as the dump (no `blocks` row, no note-commitment-tree checkpoint, no mined
+                      \* transaction, no tx-locator entry above the scan queue's tip).  Model checking: MCSound.
 
 VARIABLES db,    \* [ver, data]: the durable content of the database file
           w,     \* writer connection: [txn, pend]
@@ -195,19 +207,37 @@ CrashAtomic == op.crash \subseteq ({op.pre} \cup (IF exp.known THEN (IF exp.res 
 \* The failed call, repeated, behaves as the uninterrupted run.
 RetryConverges == Ended /\ op.mode = "retry" /\ op.clean /\ exp.known => op.res = exp.res /\ op.post = exp.data
 
+\* Every content observed as committed -- what is durable, the state before the call, the state after a call
+\* that returned (Ok or Err), every crash image after recovery, everything a reader transaction saw -- satisfies
+\* the cross-table invariants.  Unlike the properties above this does not refer to the uninterrupted run.
+Committed == {db.data, op.pre} \cup (IF Ended THEN {op.post} ELSE {}) \cup op.crash \cup r.seen
+Consistent == \A c \in Committed : Sound(c)
+
 -----------------------------------------------------------------------------
 (* Program layer (model checking): one writer operation of MaxStmts statements, one reader of    *)
 (* MaxReads reads, one injected fault, one crash, one retry; contents are sets of effects.        *)
 
 Effects == 1..MaxStmts
 Apply(d, p) == d \cup {p[k] : k \in DOMAIN p}
-Mutants == {"none", "StmtOutsideTxn", "CommitOnErr", "SwallowError", "TwoTxns", "ReaderNoTxn"}
+Mutants == {"none", "StmtOutsideTxn", "CommitOnErr", "SwallowError", "TwoTxns", "ReaderNoTxn", "SwallowRefusal"}
+
+\* Model checking: a cross-table invariant ties the effect of the first statement to that of the last one
+\* (say: the scan queue is trimmed by the first, the block rows above it are deleted by the last).
+MCSound(d) == (1 \in d) <=> (MaxStmts \in d)
 
 ASSUME Mutant \in Mutants /\ Wal \in BOOLEAN /\ MaxStmts \in Nat /\ MaxReads \in Nat
 
+\* rfs = 1: in this pre-state the operation's own logic refuses at its last statement (the statements before it
+\* have been executed inside the transaction): the uninterrupted run is an Err that leaves the database as it was.
+\* learn = 1: what the uninterrupted run does is not given but learnt from a first run of mode "ref", as the
+\* driver does it (then the relative properties hold of whatever that run did).
 Init ==
-    /\ DbInit({}, [known |-> TRUE, res |-> "ok", data |-> Effects])
-    /\ pc \in {[at |-> "idle", i |-> 1, flt |-> f, rd |-> "idle", cr |-> 0, retry |-> 1] : f \in {0, 1}}
+    \E f \in {0, 1}, rf \in {0, 1}, ln \in {0, 1} :
+        /\ ln = 1 => f = 0
+        /\ pc = [at |-> "idle", i |-> 1, flt |-> f, rd |-> "idle", cr |-> 0, retry |-> 1, rfs |-> rf, learn |-> ln]
+        /\ DbInit({}, IF ln = 1 THEN [known |-> FALSE, res |-> "none", data |-> {}]
+                      ELSE IF rf = 1 THEN [known |-> TRUE, res |-> "err", data |-> {}]
+                      ELSE [known |-> TRUE, res |-> "ok", data |-> Effects])
 
 Go(at) == pc' = [pc EXCEPT !.at = at]
 \* rollback journal: the shared lock of a reader's open transaction blocks the commit (reads outside a
@@ -219,7 +249,9 @@ CanCommit == Wal \/ ~(r.txn /\ r.has) \/ Mutant = "ReaderNoTxn"
 PStart ==
     /\ pc.at \in {"idle", "failed", "recovered"}
     /\ pc.at = "failed" => Wal \/ pc.rd # "txn"
-    /\ OpStart(IF pc.at = "failed" THEN "retry" ELSE IF pc.flt > 0 THEN "fault" ELSE "plain")
+    /\ (pc.learn = 1 /\ ~exp.known /\ ~Wal) => pc.rd # "txn"     \* the reference run is not disturbed by a reader's lock
+    /\ OpStart(IF pc.at = "failed" THEN "retry" ELSE IF pc.learn = 1 /\ ~exp.known THEN "ref"
+               ELSE IF pc.flt > 0 THEN "fault" ELSE "plain")
     /\ pc' = [pc EXCEPT !.at = IF Mutant = "StmtOutsideTxn" /\ 1 \notin db.data THEN "early" ELSE "begin", !.i = 1,
                         !.rd = IF pc.at = "failed" /\ ~Wal THEN "done" ELSE @,
                         !.flt = IF pc.at = "failed" THEN 0 ELSE @]
@@ -235,11 +267,21 @@ PBegin ==
     /\ WBegin
     /\ Go("stmt")
 
+Refuses == pc.rfs = 1 /\ pc.i = MaxStmts
+
 PStmt ==
-    /\ pc.at = "stmt" /\ pc.i <= MaxStmts
+    /\ pc.at = "stmt" /\ pc.i <= MaxStmts /\ ~Refuses
     /\ WStmt(pc.i)
     /\ pc' = [pc EXCEPT !.i = @ + 1,
                         !.at = IF Mutant = "TwoTxns" /\ pc.i = 2 /\ MaxStmts > 2 THEN "midcommit" ELSE "stmt"]
+
+\* The operation's own logic refuses (a precondition found violated half way: no fault): the error is returned,
+\* the transaction rolled back.  mutant: the error is swallowed further up, the call carries on and commits.
+PRefuse ==
+    /\ pc.at = "stmt" /\ pc.i <= MaxStmts /\ Refuses
+    /\ pc' = [pc EXCEPT !.at = IF Mutant = "SwallowRefusal" THEN "stmt" ELSE "err",
+                        !.i = IF Mutant = "SwallowRefusal" THEN @ + 1 ELSE @]
+    /\ UNCHANGED dbvars
 
 \* mutant: the operation is split over two transactions
 PMidCommit ==
@@ -274,7 +316,7 @@ PRetErr ==
     /\ OpEnd("err", db.data, Apply(db.data, w.pend), ~w.txn)
     /\ pc' = [pc EXCEPT !.at = IF pc.retry > 0 THEN "failed" ELSE "done", !.retry = 0]
 
-PRBegin == pc.rd = "idle" /\ RBegin /\ pc' = [pc EXCEPT !.rd = "txn"]
+PRBegin == pc.rd = "idle" /\ ~(~Wal /\ op.st = "run" /\ op.mode = "ref") /\ RBegin /\ pc' = [pc EXCEPT !.rd = "txn"]
 PRRead ==
     /\ pc.rd = "txn" /\ r.n < MaxReads
     /\ RRead(IF Mutant = "ReaderNoTxn" \/ ~r.has THEN db.data ELSE r.snap)   \* SQLite: reads of one transaction see one snapshot
@@ -298,10 +340,13 @@ Recover ==
     /\ Go("recovered")
     /\ UNCHANGED dbvars
 
-Next == \/ PStart \/ PEarly \/ PBegin \/ PStmt \/ PMidCommit \/ PFault \/ PCommit
+Next == \/ PStart \/ PEarly \/ PBegin \/ PStmt \/ PRefuse \/ PMidCommit \/ PFault \/ PCommit
         \/ PErr \/ PRetOk \/ PRetErr \/ PRBegin \/ PRRead \/ PREnd \/ Crash \/ Recover
 
 Spec == Init /\ [][Next]_vars
+
+\* (constraint used by the check to show what Consistent adds: only behaviours in which the uninterrupted run is learnt)
+LearnOnly == pc.learn = 1
 
 TypeOK ==
     /\ db.ver \in Nat /\ db.data \subseteq Effects
